@@ -19,23 +19,26 @@ LEVEL_NOTE = ("Proof level covers peel, getConnComps (model theorems are partial
               "OrthoPlanariser::planarise: Model/Planarise.lean is an executable Rat model of the whole planariser as coded "
               "(buildUniqueBendPoints/NearbyObjectFinder, EdgeSegment constructor, partition with running average, computeNodeGroups, "
               "CompareActiveEvents with its tolerance, the computeCrossings sweep with openH/openV and the event/segment re-pointing, "
-              "std::sort as libstdc++ insertion sort); Props/C19Planarise.lean proves for ALL segment lists that are axis-parallel, "
-              "have end coordinates equal or more than 1 apart and do not overlap on a line (hypothesis Good, decidable form goodB) that "
-              "the sweep reports a crossing node exactly at the points where a horizontal h and a vertical v satisfy "
-              "h.lo < v.cc <= h.hi, v.lo < h.cc < v.hi (crossings_sound, crossings_complete; = proper crossings when no right end touches "
-              "a vertical, crossings_iff_proper), that every input segment stays connected end to end through crossing nodes only "
-              "(planarise_preserves_nodes_and_connections_partial: crossing-removal stage only, route order not stated), that original "
-              "nodes are kept (all inputs), that std::sort returns a sorted permutation for strict weak orders, that the comparator is "
-              "lexicographic on separated coordinates but orders CLOSE before OPEN for every vertical not longer than the tolerance and "
-              "is not a strict weak order in general; closed witnesses short_segment_missorted / short_segment_disconnects (known finding "
-              "C19-planarise-shortseg in the model, replayed against the library every run) and ttouch_asymmetric. The library is tied to "
-              "the model by exact equality of bend nodes, overlap-free graph and planar graph (new nodes renamed in creation order) on the "
-              "planx-* classes; cases whose library result depends on std::sort tie handling, heap addresses or double rounding of the "
-              "running average are detected and only counted. Also proved for all such segment lists: every edge of the result is a "
-              "sub-segment of one input segment and no horizontal and vertical edge of the result cross transversally "
-              "(planarise_no_crossing_partial: no crossing node ever lies strictly inside a piece). NOT proved: the overlap-removal stage "
-              "(removeEdgeOverlaps: bend nodes, node groups) and hence the composition over whole routes; both are tied exactly and "
-              "validated per run on separated inputs.")
+              "std::sort as libstdc++ insertion sort). Props/C19Planarise.lean proves, for EVERY orthogonally routed input whose node "
+              "centres and route points have pairwise equal-or-more-than-1-apart coordinates and whose routes do not run through third "
+              "nodes' centres (hypothesis SepInput/NoCentreInside, decidable form sepInputB with soundness theorem; routes of different "
+              "edges may overlap, nest, touch and cross): one bend node per distinct bend point; the overlap-removal sweep delivers an "
+              "axis-parallel, separated, overlap-free edge list (overlap_removal_good); the crossing sweep reports a crossing node exactly "
+              "at the points where a horizontal h and a vertical v of that list satisfy h.lo < v.cc <= h.hi, v.lo < h.cc < v.hi "
+              "(crossings_sound / crossings_complete / planarise_crossings; = proper crossings when no right end touches a vertical, "
+              "crossings_iff_proper); no two edges of the result cross (planarise_no_crossing_of_input); every original node is kept and "
+              "every original edge (u,v) is realised by a chain u - m1 - ... - mk - v whose intermediate nodes are bend or crossing nodes "
+              "only (planarise_preserves_nodes_and_connections_partial; partial only in that 'in route order' is not stated). The same "
+              "theorems are also stated stage-wise for ALL segment lists (hypotheses Good / GoodA with decidable forms goodB / goodAB). "
+              "Further: std::sort returns a sorted permutation for strict weak orders; the comparator is lexicographic on separated "
+              "coordinates but orders CLOSE before OPEN for every vertical not longer than the tolerance and is not a strict weak order "
+              "in general; closed witnesses short_segment_missorted / short_segment_disconnects (known finding C19-planarise-shortseg "
+              "reproduced in the model and replayed against the library every run: the hypothesis is necessary) and ttouch_asymmetric. "
+              "The library is tied to the model by exact equality of bend nodes, overlap-free graph and planar graph (new nodes renamed "
+              "in creation order) on the planx-* classes and of the planar graph on plan-manual / plan-routed (real LeaflessOrthoRouter "
+              "routes); cases whose library result depends on std::sort tie handling, heap addresses or double rounding of the running "
+              "average are detected and only counted. Every clause is additionally evaluated on the library's own output under the "
+              "decidable hypotheses.")
 TECHNIQUE = "Lean 4 theorems (own list-based graph theory) + correspondence harness + verified output checkers"
 RULE = ("generated simple graphs (random connected, trees incl. one/two-centre paths, cycles, unicyclic, cores with "
         "hanging trees/paths, disconnected unions; rooted trees of 5-60 nodes fed directly to Tree::symmetricLayout "
